@@ -15,9 +15,9 @@ From TF Require Import Query.Bgp Query.Gen Query.GenProofs Query.Spec Query.Assi
 (* The decision procedure the harness runs on the model's conjuncts decides
    the declarative meaning: some assignment of graph terms to the variables
    satisfies every conjunct. *)
-Theorem C11_matchc_decides : forall G q, matchc G q = true <-> matches G q.
-Proof. exact matchc_spec. Qed.
-Print Assumptions C11_matchc_decides.
+Theorem C11_matcher_decides : forall G q, matcho G q = true <-> matches G q.
+Proof. exact matcho_spec. Qed.
+Print Assumptions C11_matcher_decides.
 
 (* assign_variables, with or without unfold_tree, on ANY task graph (tree or
    DAG; cyclic ones are rejected): the variables it leaves form an acyclic
@@ -197,14 +197,14 @@ Example e_canon : sk_canon eH (fun t => In t eCanon) eSk.
 Proof. apply sk_canonb_spec. vm_compute. reflexivity. Qed.
 
 (* both sides of C11_query_spec hold on a non-trivial instance ... *)
-Example e_match : matchc eG (gen eH default_sw eSk) = true.
+Example e_match : matcho eG (gen eH default_sw eSk) = true.
 Proof. vm_compute. reflexivity. Qed.
 
 Example e_match_dag :
   match skeleton 8 eT_dag false, skeleton 8 eT_dag true with
   | Ok sk1, Ok sk2 => sk_n sk1 = 3 /\ sk_n sk2 = 4 /\
-                      matchc eG (gen eH default_sw sk1) = true /\
-                      matchc eG (gen eH default_sw sk2) = true
+                      matcho eG (gen eH default_sw sk1) = true /\
+                      matcho eG (gen eH default_sw sk2) = true
   | _, _ => False
   end.
 Proof. vm_compute. repeat split; reflexivity. Qed.
@@ -212,7 +212,7 @@ Proof. vm_compute. repeat split; reflexivity. Qed.
 (* ... and both fail on another: the same steps in the wrong order *)
 Example e_nomatch :
   match skeleton 8 (mkTask [(10, mkTnode [tC] [0] [11] false); (11, mkTnode [] [1] [] false)] [10]) false with
-  | Ok sk => matchc eG (gen eH default_sw sk) = false
+  | Ok sk => matcho eG (gen eH default_sw sk) = false
   | _ => False
   end.
 Proof. vm_compute. reflexivity. Qed.
@@ -236,12 +236,12 @@ Proof.
     intros t [<-|[]]. exists tTop. split; [now left | apply SubTop].
   - intros c v [[= <- <-]|[]]. right. now left.
 Qed.
-Example e_match_le : matchc eG (gen eH default_sw eSk_le) = true.
+Example e_match_le : matcho eG (gen eH default_sw eSk_le) = true.
 Proof. vm_compute. reflexivity. Qed.
 
 (* an absent operator *)
 Example e_absent :
-  matchc eG (gen eH default_sw (mkSkel [[tC]; []] [[1]; [2]] [(0, 1)] [0] [])) = false.
+  matcho eG (gen eH default_sw (mkSkel [[tC]; []] [[1]; [2]] [(0, 1)] [0] [])) = false.
 Proof. vm_compute. reflexivity. Qed.
 
 (* The pinned graph generator (containsOperator): the task read off the
@@ -249,6 +249,6 @@ Proof. vm_compute. reflexivity. Qed.
    query, although its steps are assignable - the witness the harness replays:
    workflow  b2c (a2b (- : A)),  task  [C, b2c, [a2b, [A]]]. *)
 Example e_pinned_self_refuted :
-  matchc (eG_with PContainsOperator) (gen eH default_sw eSk) = false /\
-  matchc (eG_with PContainsOperator) (flat_map (emit_step eH eSk) (chron_order eSk)) = true.
+  matcho (eG_with PContainsOperator) (gen eH default_sw eSk) = false /\
+  matcho (eG_with PContainsOperator) (flat_map (emit_step eH eSk) (chron_order eSk)) = true.
 Proof. split; vm_compute; reflexivity. Qed.
